@@ -64,7 +64,8 @@ fn colour_col(i: usize) -> Col {
 fn data_tokens() -> Vec<(&'static str, Vec<u8>)> {
     let base = b"The quick [brown] fox;jumps:over\tthe lazy dog 0123456789m\n";
     let long: Vec<u8> = base.iter().cycle().take(64).copied().collect();
-    vec![("empty", vec![]), ("a", b"a".to_vec()), ("ab\\n", b"ab\n".to_vec()), ("64B", long)]
+    // non-ASCII data: a short write can end inside a character (the count must still be what was accepted)
+    vec![("empty", vec![]), ("a", b"a".to_vec()), ("ab\\n", b"ab\n".to_vec()), ("64B", long), ("é世", "é世".as_bytes().to_vec()), ("世界 ok", "世界 ok".as_bytes().to_vec())]
 }
 
 // ---------------------------------------------------------------------------
@@ -78,7 +79,7 @@ enum Ans {
 
 fn menu_for(len: usize) -> Vec<Ans> {
     let mut m = vec![Ans::Accept(len)];
-    for n in [0usize, 1, len.wrapping_sub(1)] {
+    for n in [0usize, 1, 2, len.wrapping_sub(1)] {
         if n < len && !m.contains(&Ans::Accept(n)) {
             m.push(Ans::Accept(n));
         }
@@ -253,14 +254,29 @@ fn judge(
     let is_ok = result.is_ok();
 
     // ---- parse what the writer accepted
+    // (the data tokens contain no ESC, so the output splits by bytes into leading sequences, one run of data bytes -
+    // possibly ending inside a multi-byte character after a short write - and trailing sequences; only the sequences
+    // go through the VT model)
+    let mut pos = 0usize;
+    while pos < accepted.len() && accepted[pos] == 0x1b {
+        match accepted[pos + 1..].iter().position(|&b| (0x40..=0x7e).contains(&b) && b != b'[') {
+            Some(k) => pos += k + 2,
+            None => pos = accepted.len(),
+        }
+    }
+    let data_end = accepted[pos..].iter().position(|&b| b == 0x1b).map_or(accepted.len(), |k| pos + k);
     let mut vt = Vt::default();
     let mut items = vec![];
-    for ev in vt.feed(accepted) {
-        match ev {
-            Ev::Csi { params, inter, ignore: false, byte: b'm' } if inter.is_empty() => items.push(Item::Seq(params)),
-            Ev::Print(c) if (c as u32) < 0x80 => items.push(Item::Data(c as u8)),
-            Ev::Execute(b) => items.push(Item::Data(b)),
-            other => return v("unexpected-sequence", format!("output {} contains {other:?}", show(accepted))),
+    for (part, is_data) in [(&accepted[..pos], false), (&accepted[pos..data_end], true), (&accepted[data_end..], false)] {
+        if is_data {
+            items.extend(part.iter().map(|&b| Item::Data(b)));
+            continue;
+        }
+        for ev in vt.feed(part) {
+            match ev {
+                Ev::Csi { params, inter, ignore: false, byte: b'm' } if inter.is_empty() => items.push(Item::Seq(params)),
+                other => return v("unexpected-sequence", format!("output {} contains {other:?}", show(accepted))),
+            }
         }
     }
     let pending = vt.st != St::Ground;
